@@ -30,22 +30,36 @@ func prRet() (prT, int) {
     ("C01-large-value-boxed-after-store", '''
 type prBig struct {
 	A   int
-	Pad [200000]int64
+	Pad [140000]int64
 }
 
 var prG prBig
 
-func prBox() any {
+// no by-value use of a prBig apart from conversions to `any` (LLVM 14 is fragile on MiB-sized first-class aggregates)
+func prBox() (any, any) {
 	p := &prG
+	before := any(*p)
 	v := *p
 	p.A = 7
 	var i any = v
-	return i
+	return i, before
 }
 ''', '''
 	prG.A = 1
-	i := prBox()
-	println(i.(prBig).A, prG.A)
+	i, before := prBox()
+	println(i == before, i == any(prG))
+'''),
+    ("C01-range-array-value-not-copied", "", '''
+	arr := [3]int{1, 2, 3}
+	for i, v := range arr {
+		arr[(i+1)%3] += 10
+		println(i, v)
+	}
+	pa := &arr
+	for i, v := range *pa {
+		pa[(i+1)%3] += 100
+		println(i, v)
+	}
 '''),
 ]
 
